@@ -405,6 +405,50 @@ def _lagged(prog: Program, col: Collector, refs: Refs):
               f"for duration {bad[0]} and period {bad[1]}: {bad[2]}" if bad else "", f.loc())
 
 
+def _markov_product_rule(prog: Program, col: Collector, refs: Refs, cat):
+    """eager_markov_product without state pairs: the product over the time steps is `trans.reduce(prod_op, time)` when the transition
+    mentions time, and otherwise the n-fold power of the PRODUCT op (add: times n, mul: to the n-th power) - read off PRODUCT_TO_POWER
+    semantics by the analyser's own algebra; with state pairs it is the scan with exactly those pairs."""
+    from .. import axioms
+    f = require_func(prog, "funsor.sum_product::eager_markov_product")
+    sum_p, prod_p, trans, time, step = f.positional[:5]
+    n = 0
+    for node in ast.walk(f.node):
+        if not isinstance(node, ast.If):
+            continue
+        t = node.test
+        if isinstance(t, ast.Compare) and len(t.ops) == 1 and isinstance(t.ops[0], ast.Is) and norm(t.left) == prod_p:
+            o = cat.resolve_op(f.module, t.comparators[0]) if isinstance(t.comparators[0], (ast.Name, ast.Attribute)) else None
+            ab = axioms.identify(cat, o) if o is not None else None
+            vals = [st.value for st in node.body if isinstance(st, (ast.Assign, ast.Return)) and st.value is not None]
+            construct = f"{f.fq}::{norm(t)}"
+            if ab not in ("ADD", "MUL") or not vals:
+                col.unresolved(construct, "branch of the absent-time compensation not recognised", f.loc(node))
+                continue
+            n += 1
+            v = vals[0]
+            want = ast.Mult if ab == "ADD" else ast.Pow
+            size_ok = isinstance(v, ast.BinOp) and norm(v.left) == trans and norm(v.right) in (f"{time}.size", f"{time}.output.size", f"{time}.output.dtype")
+            col.check(size_ok and isinstance(v.op, want), construct, f"the {ab.lower()}-product over n steps of a time-independent transition is trans {'*' if ab == 'ADD' else '**'} n",
+                      f"`{norm(v)[:40]}`: when the transition does not mention time, the product over the n time steps under `{norm(t.comparators[0])}` is "
+                      f"trans {'*' if ab == 'ADD' else '**'} {time}.size", f.loc(node))
+        if isinstance(t, ast.Compare) and len(t.ops) == 1 and isinstance(t.ops[0], ast.In) and norm(t.left) == f"{time}.name" and norm(t.comparators[0]) == f"{trans}.inputs":
+            vals = [st.value for st in node.body if isinstance(st, (ast.Assign, ast.Return)) and st.value is not None]
+            n += 1
+            ok = bool(vals) and isinstance(vals[0], ast.Call) and isinstance(vals[0].func, ast.Attribute) and vals[0].func.attr == "reduce" and norm(vals[0].func.value) == trans \
+                and len(vals[0].args) == 2 and norm(vals[0].args[0]) == prod_p and norm(vals[0].args[1]) in (f"{time}.name", time)
+            col.check(ok, f"{f.fq}::{norm(t)}", f"{trans}.reduce({prod_p}, {time}.name)",
+                      f"without state pairs the Markov product over time is the plain product `{trans}.reduce({prod_p}, {time}.name)`, not `{norm(vals[0])[:50] if vals else '?'}`", f.loc(node))
+    scans = [c for c in ast.walk(f.node) if isinstance(c, ast.Call) and (refs.resolve(c.func) or "").endswith("sequential_sum_product")]
+    for c in scans:
+        n += 1
+        args = [norm(a) for a in c.args]
+        ok = args[:4] == [sum_p, prod_p, trans, time] and len(args) == 5 and step in args[4]
+        col.check(ok, f"{f.fq}::{norm(c)[:50]}", "the scan receives (sum_op, prod_op, trans, time, the state pairs)",
+                  f"the scan is called with {args}: the semiring ops, the transition, the time variable and the state pairs have to be handed on in their roles", f.loc(c))
+    col.cur.analysed["markov_rule_sites"] = n
+
+
 def run(prog: Program, col: Collector, tier: str, refs: Optional[Refs] = None, cat: Optional[Catalogue] = None):
     refs = refs or Refs(prog)
     col.rule("R10.1", "parallel scan: pairs (2k, 2k+1), odd tail last, every step once, sizes consistent", floor=2)
@@ -415,4 +459,7 @@ def run(prog: Program, col: Collector, tier: str, refs: Optional[Refs] = None, c
     _naive_order(prog, col, refs)
     col.rule("R10.4", "time-lagged product: residue classes, shifts, declared sizes and the remainder fold", floor=1)
     _lagged(prog, col, refs)
+    col.rule("R10.5", "eager MarkovProduct: scan with the state pairs, plain product over time, or the n-fold power of the product op", floor=4)
+    cat = cat or Catalogue(prog, refs)
+    _markov_product_rule(prog, col, refs, cat)
     return col
